@@ -1,21 +1,26 @@
 #!/usr/bin/env python3
-"""tools/freeze_members.py — freeze, per rule module, the data members of library classes that the module (and the rule
-files it imports) mentions by name: rules/members.json = {module: [[class, member], ...]}. ./check verifies before a
-module runs that every frozen member still exists; a member that was renamed or moved makes the module answer
-ANALYSIS-BROKEN instead of judging code through a model that names something else. Re-run after editing rules, on a
-tree where all checks are known to be right."""
-import json, os, re, sys
+"""tools/freeze_members.py — freeze, per rule module, what the module (and the rule files it imports) names of the
+library in its string literals: data members of classes (rules/members.json = {module: [[class, member], ...]}) and
+functions (rules/functions.json = {module: [qualified name, ...]}). ./check verifies before a module runs that each
+still exists; something that was renamed, moved or removed makes the module answer ANALYSIS-BROKEN instead of judging
+code through models, stubs and name comparisons that speak of something else. Re-run after editing rules, on a tree
+where all checks are known to be right."""
+import ast, json, os, re, sys
 HERE = os.path.dirname(os.path.dirname(os.path.abspath(__file__)))
 sys.path.insert(0, HERE)
 os.chdir(HERE)
 from cpv.context import Context
 from cpv.report import Run
 prog = Context("/repo", "quick", Run("C01", "quick", "/repo")).program()
-fields = {}
+fields, funcs = {}, {}
 for qn, r in prog.records.items():
     if (r.get("file") or "").startswith(("src/", "include/")):
         for fl in r.get("fields", []):
             fields.setdefault(fl["name"], set()).add(qn)
+for g in prog.functions.values():
+    if g.file.startswith(("src/", "include/")):
+        funcs.setdefault(g.name, set()).add(g.qn)
+
 
 def sources(mod, seen=None):
     seen = seen if seen is not None else set()
@@ -25,12 +30,29 @@ def sources(mod, seen=None):
     for m in re.finditer(r"^\s*from \.(\w+) import", open("rules/%s.py" % mod).read(), re.M):
         sources(m.group(1), seen)
     return seen
-out = {}
+
+
+def literal_tokens(path):
+    """identifiers inside the string literals of a rule file (docstrings excluded): what the rules say about the program"""
+    tree = ast.parse(open(path).read())
+    doc = set()
+    for n in ast.walk(tree):
+        if isinstance(n, (ast.Module, ast.FunctionDef, ast.ClassDef)) and n.body and isinstance(n.body[0], ast.Expr) and isinstance(getattr(n.body[0], "value", None), ast.Constant):
+            doc.add(id(n.body[0].value))
+    toks = set()
+    for n in ast.walk(tree):
+        if isinstance(n, ast.Constant) and isinstance(n.value, str) and id(n) not in doc:
+            toks |= set(re.findall(r"[A-Za-z_~][A-Za-z0-9_]*", n.value))
+    return toks
+optional = set(json.load(open("rules/optional_names.json"))) if os.path.exists("rules/optional_names.json") else set()
+members, functions = {}, {}
 for i in range(1, 21):
     mod = "C%02d" % i
     toks = set()
     for m in sources(mod):
-        toks |= set(re.findall(r"[A-Za-z_]\w*", open("rules/%s.py" % m).read()))
-    out[mod] = sorted([c, f] for f in toks & set(fields) for c in fields[f])
-    print(mod, len(out[mod]), "members of", len({c for c, f in out[mod]}), "classes")
-json.dump(out, open("rules/members.json", "w"), indent=0, sort_keys=True)
+        toks |= literal_tokens("rules/%s.py" % m)
+    members[mod] = sorted([c, f] for f in toks & set(fields) for c in fields[f])
+    functions[mod] = sorted(q for n in toks & set(funcs) for q in funcs[n] if q not in optional)
+    print(mod, len(members[mod]), "members,", len(functions[mod]), "functions")
+json.dump(members, open("rules/members.json", "w"), indent=0, sort_keys=True)
+json.dump(functions, open("rules/functions.json", "w"), indent=0, sort_keys=True)
